@@ -18,13 +18,13 @@ def load_specs(eng, path=SPEC_FILE):
     eng.spec_frame = frame
 
 
-def build_tasks(eng, obs):
+def build_tasks(eng, obs, level=0):
     from . import vcprep
 
     tasks = []
     for ob in obs:
         t0 = time.time()
-        full, core = vcprep.prepare(eng, ob)
+        full, core = vcprep.prepare(eng, ob, level=level)
         ob.prep_time = time.time() - t0
         has_q = len(full) != len(core)
         ob.smt_full = vcprep.to_smt2(full) if has_q else None
@@ -35,10 +35,23 @@ def build_tasks(eng, obs):
 
 def solve_all(eng, obs=None, timeout_ms=20000, cvc5_all=False, seed=0):
     obs = eng.obligations if obs is None else obs
-    tasks = build_tasks(eng, obs)
-    res = solve.discharge(tasks, timeout_ms=timeout_ms, cvc5_all=cvc5_all, seed=seed)
-    for ob in obs:
-        r = res[ob.name]
+    t0 = time.time()
+    res = solve.discharge_obligations(eng, obs, level=0, timeout_ms=timeout_ms, seed=seed, cvc5=("all" if cvc5_all else "unknown"))
+    for ob, r in zip(obs, res):
         ob.status, ob.time, ob.backend, ob.model, ob.detail = r["status"], r["time"], r["backend"], r["model"], r.get("reason")
         ob.raw = r
+        ob.smt_full, ob.smt_core = r.get("smt_full"), r.get("smt_core")
+    # second chance with the inductive sign lemmas (sum of zeros / of non-negatives)
+    again = [ob for ob in obs if ob.kind != "cover" and ob.status != "unsat"]
+    if again:
+        res2 = solve.discharge_obligations(eng, again, level=1, timeout_ms=timeout_ms, seed=seed, cvc5="unknown")
+        for ob, r in zip(again, res2):
+            if r["status"] == "unsat" or ob.status in ("unknown", "error"):
+                first = ob.raw
+                ob.status, ob.backend, ob.model, ob.detail = r["status"], r["backend"] + " +sign-lemmas", r["model"] or ob.model, r.get("reason")
+                ob.time += r["time"]
+                ob.raw = r
+                ob.raw["first_attempt"] = first.get("log")
+                ob.smt_full, ob.smt_core = r.get("smt_full"), r.get("smt_core")
+    eng.prep_time = sum(o.raw.get("prep", 0) for o in obs)
     return res
